@@ -35,6 +35,7 @@ def shards(tier, seed):
     out.append({"lane": "recorded", "tier": tier, "seed": seed})
     out.append({"lane": "path", "tier": tier, "seed": seed})
     out.append({"lane": "wire-format", "tier": tier, "seed": seed})
+    out.append({"lane": "download-path", "tier": tier, "seed": seed})
     for i in range(4 if tier == "quick" else 16):
         out.append({"lane": "horizon", "shard": i, "tier": tier, "seed": seed})
     return out
@@ -313,6 +314,60 @@ def two_threads_on_recorded_blocks(a, cons, blocks, rng):
         cons.scrypt = real_scrypt
 
 
+def lane_download_path(a, spec):
+    """the route by which a catching-up node takes blocks: answers to its own requests (in_response_to != 0), validated only at
+    intervals.  An alternative block claiming a checkpointed height is delivered that way for EVERY checkpointed height (and,
+    for comparison, as an unsolicited block).  Unsolicited: refused at every height.  As a download answer: the heights at
+    which it is refused must not be further apart than the recorded interval of 10,000 blocks -- otherwise an alternative
+    history can be downloaded past a checkpoint without ever being compared with one"""
+    import skepticoin.consensus as cons
+    import skepticoin.datatypes as dt
+    import skepticoin.signing as sg
+    from skv import gen, nodekit, simnet
+    rng = random.Random(spec.get("seed", 0) * 7 + 18)
+    world = gen.World(rng)
+    sn = nodekit.SingleNode(world, rng, "c18-download", npeers=2)
+    table = json.load(open(os.path.join(os.path.dirname(os.path.abspath(__file__)), "..", "data", "checkpoints.json")))
+    heights = sorted(int(h) for h in table["known_hashes"] if int(h) > 0)
+    gid = world.gid
+    enforced, accepted_unsolicited = [], []
+
+    def alt(h, n):
+        cb = dt.Transaction([dt.Input(dt.OutputReference(b"\x00" * 32, 0), sg.CoinbaseData(h, b"alt%d" % n))],
+                            [dt.Output(10, sg.SECP256k1PublicKey(b"\x01" * 64))])
+        summary = dt.BlockSummary(h, gid, cons.calc_merkle_root_hash([cb]), sn.net.clock.t - 100, b"\xff" * 32, n)
+        return dt.Block(dt.BlockHeader(summary, dt.PowEvidence(b"\x00" * 32, b"\x00" * 32, b"\x00" * 32)), [cb])
+    for k, h in enumerate(heights):
+        for how in ("download-answer", "unsolicited"):
+            blk = alt(h, 2 * k + (how == "unsolicited"))
+            peer = sn.peers[k % len(sn.peers)]
+            if peer.peer.closed or not sn.is_active(peer):
+                peer = sn.add_peer()
+            peer.push(sn.wire.block(blk, in_response_to=0 if how == "unsolicited" else 7))
+            sn.settle()
+            a.n += 1
+            a.inc("download_path_deliveries")
+            held = blk.hash() in sn.cm.coinstate.block_by_hash
+            if how == "unsolicited" and held:
+                accepted_unsolicited.append(h)
+            if how == "download-answer" and not held:
+                enforced.append(h)
+            if sn.escaped():
+                a.v("exception-escaped-event-handler", sn.escaped()[0][:200], {"lane": "download-path", "height": h})
+    sn.close()
+    a.inc("download_path_heights_enforced", len(enforced))
+    if accepted_unsolicited:
+        a.v("wrong-id-accepted-at-checkpoint", "an unsolicited block with another id than the checkpoint is part of the node's chain "
+            "state at heights %s" % accepted_unsolicited[:5], {"lane": "download-path", "height": accepted_unsolicited[0]})
+    horizon = max(heights)
+    edges = [0] + enforced + [horizon]
+    gap = max(b - a_ for a_, b in zip(edges, edges[1:]))
+    if gap > 10000:
+        a.v("alternative-history-can-be-downloaded-past-checkpoints", "blocks delivered as answers to the node's own requests are "
+            "compared with a checkpoint at %d of %d checkpointed heights (%s...); the longest run of heights without any comparison "
+            "is %d blocks (recorded: 10,000)" % (len(enforced), len(heights), enforced[:4], gap), {"lane": "download-path", "height": 10000})
+
+
 def lane_path(a, spec):
     """full add_block path over an un-mined prefix at the first low checkpoints (real table, stand-in scrypt)"""
     import skepticoin.consensus as cons
@@ -483,6 +538,9 @@ def run_shard(spec):
     elif lane == "wire-format":
         env.boot(fake_scrypt=False, horizon_off=False)
         lane_wire_format(a, spec)
+    elif lane == "download-path":
+        env.boot(fake_scrypt=True, horizon_off=False)
+        lane_download_path(a, spec)
     else:
         env.boot(fake_scrypt=True, horizon_off=True)
         lane_horizon(a, spec)
@@ -505,6 +563,7 @@ def finalize(m, tier):
                    ("wire_format_headers", c.get("wire_format_headers", 0), 327),
                    ("checkpoint_candidates_on_known_parent", c.get("checkpoint_candidates_on_known_parent", 0), 1000),
                    ("path_ids_compared_with_network_format", c.get("path_ids_compared_with_network_format", 0), 1000),
-                   ("two_thread_trials", c.get("two_thread_trials", 0), 200)],
+                   ("two_thread_trials", c.get("two_thread_trials", 0), 200),
+                   ("download_path_deliveries", c.get("download_path_deliveries", 0), 600)],
         "extra": {},
     }
